@@ -125,7 +125,7 @@ theorem dispatch_frame {e : Editor D L} {ev : KeyEvent} {sh : Shared D L} {st : 
 
 /-- the part of `process_keyevent` after the state's `next`: auto-commit, dictionary flush, result -/
 def tail (sh : Shared D L) (st : St) : Outcome (Editor D L × KB) :=
-  match (if st == .entering && sh.last == .absorb then Shared.tryAutoCommit env sh else .ok sh) with
+  match (if (st == .entering || st == .enteringSyllable) && sh.last == .absorb then Shared.tryAutoCommit env sh else .ok sh) with
   | .panic p => .panic p
   | .outOfFuel => .outOfFuel
   | .ok sh =>
@@ -165,7 +165,7 @@ theorem tail_keeps {sh : Shared D L} {st : St} {e' : Editor D L} {b : KB}
     sh.last = b ∧ e'.state = st ∧
       e'.shared = if sh.dirty > 0 then { sh with dict := env.reopenFlush sh.dict, dirty := 0 } else sh := by
   unfold tail at h
-  by_cases hc : (st == .entering && sh.last == .absorb) = true
+  by_cases hc : ((st == .entering || st == .enteringSyllable) && sh.last == .absorb) = true
   · rw [if_pos hc] at h
     cases hr : Shared.tryAutoCommit env sh with
     | ok sh2 =>
